@@ -503,6 +503,11 @@ func c07Scenarios() []c07Scenario {
 		{name: "deletebucket-deletebucket", kinds: []drv.Kind{drv.Mem, drv.Bolt, drv.MultiMem},
 			threads: [][]cOp{{{Kind: "deletebucket"}}, {{Kind: "deletebucket"}}},
 			final:   []cOp{{Kind: "createbucket"}, {Kind: "list"}}},
+		// a listing that loses its bucket half way is refused and leaves nothing held: the
+		// bucket can be made again and written to
+		{name: "list-deletebucket-recreate-put", kinds: []drv.Kind{drv.Mem, drv.Bolt, drv.MultiMem},
+			threads: [][]cOp{{{Kind: "list"}}, {{Kind: "deletebucket"}, {Kind: "createbucket"}, {Kind: "put", Key: "k", Body: "A"}}},
+			final:   []cOp{{Kind: "get", Key: "k"}, {Kind: "list"}}},
 		{name: "createbucket-put-deletebucket", kinds: []drv.Kind{drv.Mem, drv.Bolt, drv.MultiMem}, noBucket: true,
 			threads: [][]cOp{{{Kind: "createbucket"}}, {{Kind: "put", Key: "k", Body: "A"}}, {{Kind: "deletebucket"}}},
 			final:   []cOp{{Kind: "get", Key: "k"}}},
